@@ -440,9 +440,27 @@ def translator_validate(mod, cfg, spec, T, p, st):
         st.tv_leaves += 1
         if isinstance(b, float) and (b != b or abs(b) == float("inf")):
             continue
-        if abs(exact - float(b)) > 1e-9 * (abs(exact) + abs(float(b)) + big) + 1e-12:
+        # cancellation against a large constant (an affine offset expressed in a tiny unit) loses digits in floats: allow eps x the
+        # product of the magnitudes of the numerals in the term (translator validation guards the proxies, it is not a deciding step)
+        if abs(exact - float(b)) > 1e-9 * (abs(exact) + abs(float(b)) + big) + 1e-12 + 1e-15 * _numeral_scale(e):
             st.tv_bad += 1
             st.errors.append("translator validation mismatch cfg=%s sym=%r real=%r" % (json.dumps(cfg)[:200], exact, b))
+
+
+def _numeral_scale(e):
+    scale, seen, stack = 1.0, set(), [e]
+    while stack:
+        x = stack.pop()
+        if x.get_id() in seen:
+            continue
+        seen.add(x.get_id())
+        if z3.is_rational_value(x):
+            n, d = abs(x.numerator_as_long()), abs(x.denominator_as_long())
+            if n and d:
+                scale *= max(n / d, d / n)
+        else:
+            stack.extend(x.children())
+    return min(scale, 1e60)
 
 
 def _cmp_atoms(formulas):
